@@ -29,6 +29,10 @@ Local Open Scope nat_scope.
 #[local] Arguments str_eqb : simpl never.
 #[local] Arguments existsb : simpl never.
 #[local] Arguments assoc_get : simpl never.
+#[local] Arguments find_def : simpl never.
+#[local] Arguments opt_stmts : simpl never.
+#[local] Arguments drop_pass : simpl never.
+#[local] Arguments freeze_env : simpl never.
 #[local] Arguments mapM : simpl never.
 #[local] Arguments mapR : simpl never.
 #[local] Arguments rbind : simpl never.
@@ -46,20 +50,18 @@ Local Open Scope nat_scope.
 #[local] Arguments tl : simpl never.
 
 Section Frame1.
-Variables (ca cd : nat -> mode) (pf ls : nat -> bool) (cs : list value).
+Variables (ca cd : nat -> mode) (pf ls : nat -> bool) (cs : list value) (defs : list (str * prog)).
 Notation vok := (C17_Inv.vok ca cd pf).
 Notation env_ok := (C17_Inv.env_ok ca cd pf).
-Notation Inv := (C17_Inv.Inv ca cd pf ls cs).
+Notation Inv := (C17_Inv.Inv ca cd pf ls cs defs).
 Notation frame := (C17_Inv.frame ca cd ls).
-Notation good := (C17_Inv.good ca cd pf ls cs).
+Notation good := (C17_Inv.good ca cd pf ls cs defs).
 Notation sok_e := (C17_Inv.sok_e ca cd pf cs).
 Notation sok_v := (C17_Inv.sok_v ca cd pf cs).
 Notation sok_i := (C17_Inv.sok_i ca cd pf cs).
-Notation E_spec := (C17_Ops.E_spec ca cd pf ls cs).
-Notation V_spec := (C17_Ops.V_spec ca cd pf ls cs).
-Notation C_spec := (C17_Ops.C_spec ca cd pf ls cs).
-Notation Vpost := (C17_Ops.Vpost ca cd pf ls cs).
-Notation Epost := (C17_Ops.Epost ca cd pf ls cs).
+Notation E_spec := (C17_Ops.E_spec ca cd pf ls cs defs).
+Notation V_spec := (C17_Ops.V_spec ca cd pf ls cs defs).
+Notation C_spec := (C17_Ops.C_spec ca cd pf ls cs defs).
 
 Ltac split_sok H :=
   repeat match type of H with
@@ -70,21 +72,18 @@ Lemma step_E : forall f, E_spec f -> V_spec f -> E_spec (S f).
 Proof.
   intros f IHE IHV e st Hs HI. destruct e as [v ops iff]. simpl.
   rewrite sok_e_Ex in Hs. apply andb_prop in Hs. destruct Hs as [Hs Hiff].
-  apply andb_prop in Hs. destruct Hs as [Hs Hprec]. apply andb_prop in Hs. destruct Hs as [Hv Hops].
+  apply andb_prop in Hs. destruct Hs as [Hv Hops].
   assert (Hmain : forall st0, Inv st0 ->
             post (good st0 vok)
-              (rbind (eval_vexpr Asp [] f v st0)
-                 (fun '(obj, st1) => match ops with [] => Ok (obj, st1) | _ :: _ => chain Asp (eval_vexpr Asp [] f) f obj ops st1 end))).
-  { intros st0 I0. eapply good_bind; [apply (V_plain ca cd pf ls cs); auto|].
-    intros obj st1 I1 F1 Ho. cbv beta match. destruct ops as [|i0 rest]; [apply (good_pure ca cd pf ls cs); auto|].
-    apply (chain_good ca cd pf ls cs); auto. apply (V_operand ca cd pf ls cs); auto. }
-  destruct iff as [[c e2]|].
-  - apply (Epost_of_good ca cd pf ls cs); [destruct ops; reflexivity|].
-    apply andb_prop in Hiff. destruct Hiff as [Hc He2].
-    eapply good_bind; [apply (E_plain ca cd pf ls cs _ _ _ IHE); auto|]. intros cv st1 I1 F1 Hcv. cbv beta match.
-    destruct (truthy Asp st1 cv); [apply Hmain; auto|apply (E_plain ca cd pf ls cs _ _ _ IHE); auto].
-  - destruct ops as [|i0 rest]; [|apply (Epost_of_good ca cd pf ls cs); [reflexivity|apply Hmain; auto]].
-    eapply post_bind; [apply IHV; auto|]. intros obj st1 [Hg Hadd]. cbv beta match. cbn [post]. split; [exact Hg|exact Hadd].
+              (rbind (eval_vexpr Asp defs f v st0)
+                 (fun '(obj, st1) => match ops with [] => Ok (obj, st1) | _ :: _ => chain Asp (eval_vexpr Asp defs f) f obj ops st1 end))).
+  { intros st0 I0. eapply good_bind; [apply (V_plain ca cd pf ls cs defs); auto|].
+    intros obj st1 I1 F1 Ho. cbv beta match. destruct ops as [|i0 rest]; [apply (good_pure ca cd pf ls cs defs); auto|].
+    apply (chain_good ca cd pf ls cs defs); auto. apply (V_operand ca cd pf ls cs defs f); auto. }
+  destruct iff as [[c e2]|]; [|apply Hmain; auto].
+  apply andb_prop in Hiff. destruct Hiff as [Hc He2].
+  eapply good_bind; [apply (E_plain ca cd pf ls cs defs _ _ _ IHE); auto|]. intros cv st1 I1 F1 Hcv. cbv beta match.
+  destruct (truthy Asp st1 cv); [apply Hmain; auto|apply (E_plain ca cd pf ls cs defs _ _ _ IHE); auto].
 Qed.
 
 (* the loop of a comprehension *)
@@ -99,22 +98,22 @@ Lemma comp_loop_good : forall f names (cond : option expr) (e : expr), E_spec f 
             rbind (unpack_names Asp names li st0) (fun st' =>
             rbind (match cond with
                    | None => Ok (true, st')
-                   | Some c => rbind (eval_expr Asp [] f c st') (fun '(cv, sx) => Ok (truthy Asp sx cv, sx))
+                   | Some c => rbind (eval_expr Asp defs f c st') (fun '(cv, sx) => Ok (truthy Asp sx cv, sx))
                    end) (fun '(keep, st'') =>
-            if keep then rbind (eval_expr Asp [] f e st'') (fun '(v, sy) => go r (v :: acc) sy)
+            if keep then rbind (eval_expr Asp defs f e st'') (fun '(v, sy) => go r (v :: acc) sy)
             else go r acc st''))
         end) l acc st).
 Proof.
   intros f names cond e IHE He Hc. induction l as [|li r IH]; intros acc st Hl Hacc HI.
   - apply good_ret; auto. apply Forall_rev. auto.
   - inversion Hl as [|? ? Hli Hr]; subst.
-    apply post_bind_pure. intros st' Hu. destruct (unpack_names_good ca cd pf ls cs _ _ _ _ HI Hli Hu) as [I1 F1].
+    apply post_bind_pure. intros st' Hu. destruct (unpack_names_good ca cd pf ls cs defs _ _ _ _ HI Hli Hu) as [I1 F1].
     eapply good_frame; [exact F1|].
-    eapply (good_bind ca cd pf ls cs (fun _ : bool => True)).
+    eapply (good_bind ca cd pf ls cs defs (fun _ : bool => True)).
     + destruct cond as [c|]; [|apply good_ret; auto].
-      eapply good_bind; [apply (E_plain ca cd pf ls cs _ _ _ IHE); auto|]. intros cv sx I2 F2 _. cbv beta match. apply good_ret; auto.
+      eapply good_bind; [apply (E_plain ca cd pf ls cs defs _ _ _ IHE); auto|]. intros cv sx I2 F2 _. cbv beta match. apply good_ret; auto.
     + intros keep st'' I2 F2 _. cbv beta match. destruct keep; [|apply IH; auto].
-      eapply good_bind; [apply (E_plain ca cd pf ls cs _ _ _ IHE); auto|]. intros v sy I3 F3 Hv. cbv beta match. apply IH; auto.
+      eapply good_bind; [apply (E_plain ca cd pf ls cs defs _ _ _ IHE); auto|]. intros v sy I3 F3 Hv. cbv beta match. apply IH; auto.
 Qed.
 
 (* the positional arguments of a method call *)
@@ -126,7 +125,7 @@ Lemma meth_args_good : forall f, E_spec f ->
         | [] => Ok ([], st0)
         | (_, t, def) :: sr =>
             match l with
-            | e :: r => rbind (eval_expr Asp [] f e st0) (fun '(v, st') => rbind (validate t def v) (fun v' =>
+            | e :: r => rbind (eval_expr Asp defs f e st0) (fun '(v, st') => rbind (validate t def v) (fun v' =>
                         rbind (go r sr st') (fun '(vs, st'') => Ok (v' :: vs, st''))))
             | [] => match def with
                     | Some dv => rbind (go [] sr st0) (fun '(vs, st'') => Ok (dv :: vs, st''))
@@ -141,7 +140,7 @@ Proof.
     + destruct def as [dv|]; [|exact I].
       eapply good_bind; [apply IH; auto|]. intros vs st'' I2 F2 Hvs. cbv beta match. apply good_ret; auto.
     + cbn [forallb] in Hl. apply andb_prop in Hl. destruct Hl as [He Hr].
-      eapply good_bind; [apply (E_plain ca cd pf ls cs _ _ _ IHE); auto|]. intros v st' I1 F1 Hv. cbv beta match.
+      eapply good_bind; [apply (E_plain ca cd pf ls cs defs _ _ _ IHE); auto|]. intros v st' I1 F1 Hv. cbv beta match.
       apply post_bind_pure. intros v' Hv'.
       eapply good_bind; [apply IH; auto|]. intros vs st'' I2 F2 Hvs. cbv beta match. apply good_ret; auto.
       constructor; auto. eapply validate_ok; eauto.
@@ -150,64 +149,55 @@ Qed.
 Lemma step_V : forall f, E_spec f -> V_spec f -> C_spec f -> V_spec (S f).
 Proof.
   intros f IHE IHV IHC x st Hs HI. destruct x; simpl.
-  - (* XInt *) split; [apply (good_pure ca cd pf ls cs); auto; reflexivity|intros _; exact I].
-  - split; [apply (good_pure ca cd pf ls cs); auto; reflexivity|intros _; exact I].
-  - split; [apply (good_pure ca cd pf ls cs); auto; reflexivity|intros _; exact I].
-  - split; [apply (good_pure ca cd pf ls cs); auto; reflexivity|intros _; exact I].
-  - split; [apply (good_pure ca cd pf ls cs); auto; reflexivity|intros _; exact I].
+  - (* XInt *) apply (good_pure ca cd pf ls cs defs); auto; reflexivity.
+  - apply (good_pure ca cd pf ls cs defs); auto; reflexivity.
+  - apply (good_pure ca cd pf ls cs defs); auto; reflexivity.
+  - apply (good_pure ca cd pf ls cs defs); auto; reflexivity.
+  - apply (good_pure ca cd pf ls cs defs); auto; reflexivity.
   - (* XList *)
     rewrite sok_v_list in Hs.
-    pose proof (mapM_good ca cd pf ls cs vok (eval_expr Asp [] f) es st HI) as Hm.
-    destruct (mapM (eval_expr Asp [] f) es st) as [[vs st1]| |] eqn:Em; try exact I.
-    cbn [post] in Hm. destruct Hm as (I1 & F1 & Hvs).
-    { intros e Hin st0 I0. apply (E_plain ca cd pf ls cs _ _ _ IHE); auto. rewrite forallb_forall in Hs. apply Hs. exact Hin. }
-    cbv beta match delta [rbind].
-    pose proof (new_list_good ca cd pf ls cs vs st1 I1 Hvs) as Hn.
-    destruct (new_list_items vs st1) as (r & Hr1 & Hr2).
-    destruct (new_list vs st1) as [v st2]. cbn [fst snd] in *. cbn [post] in *. destruct Hn as (I2 & F2 & Hv). split.
-    + split; [auto|]. split; [eapply frame_trans; eauto|auto].
-    + intros Hsafe. subst v. cbn [addsafe]. rewrite Hr2. apply mapM_length in Em. destruct es; [discriminate Hsafe|].
-      destruct vs; [discriminate Em|discriminate].
+    eapply good_bind.
+    + apply (mapM_good ca cd pf ls cs defs vok); [exact HI|]. intros e Hin st0 I0. apply (E_plain ca cd pf ls cs defs _ _ _ IHE); auto.
+      rewrite forallb_forall in Hs. apply Hs. exact Hin.
+    + intros vs st1 I1 F1 Hvs. cbv beta match. apply (new_list_good ca cd pf ls cs defs); auto.
   - (* XComp *)
-    apply (Vpost_of_good ca cd pf ls cs); [reflexivity|]. rewrite sok_v_comp in Hs. split_sok Hs.
-    eapply good_bind; [apply (E_plain ca cd pf ls cs _ _ _ IHE); auto|]. intros itv st1 I1 F1 Hitv. cbv beta match.
-    apply post_bind_pure. intros items Hit. pose proof (iter_items_ok ca cd pf ls cs _ _ _ I1 Hitv Hit) as Hitems.
+    rewrite sok_v_comp in Hs. split_sok Hs.
+    eapply good_bind; [apply (E_plain ca cd pf ls cs defs _ _ _ IHE); auto|]. intros itv st1 I1 F1 Hitv. cbv beta match.
+    apply post_bind_pure. intros items Hit. pose proof (iter_items_ok ca cd pf ls cs defs _ _ _ I1 Hitv Hit) as Hitems.
     match goal with |- post _ (if ?c then _ else _) => destruct c end; [exact I|].
     eapply good_bind.
     + eapply good_frame; [apply (set_locals_frame ca cd ls st1 ([] :: locals st1))|].
       apply comp_loop_good; auto.
       * destruct cond; auto.
-      * apply set_locals_inv; auto. constructor; [constructor|apply (i_loc _ _ _ _ _ _ I1)].
+      * apply set_locals_inv; auto. constructor; [constructor|apply (i_loc _ _ _ _ _ _ _ I1)].
     + intros out st3 I3 F3 Hout. cbv beta match.
       match goal with |- post _ (if ?c then _ else _) => destruct c end; [exact I|].
       eapply good_frame; [apply (set_locals_frame ca cd ls st3 (tl (locals st3)))|].
       assert (I4 : Inv (set_locals (tl (locals st3)) st3)).
-      { apply set_locals_inv; auto. pose proof (i_loc _ _ _ _ _ _ I3) as Hl. destruct (locals st3); [constructor|inversion Hl; auto]. }
+      { apply set_locals_inv; auto. pose proof (i_loc _ _ _ _ _ _ _ I3) as Hl. destruct (locals st3); [constructor|inversion Hl; auto]. }
       match goal with |- post _ (Ok (VList {| s_arr := _; s_off := _; s_len := _; s_cap := Nat.max ?c _ |}, _)) =>
-        pose proof (alloc_list_good ca cd pf ls cs out c (set_locals (tl (locals st3)) st3) I4 Hout) as Ha end.
+        pose proof (alloc_list_good ca cd pf ls cs defs out c (set_locals (tl (locals st3)) st3) I4 Hout) as Ha end.
       unfold alloc_list in Ha. destruct Ha as (I5 & F5 & V5 & _). cbn [post]. unfold C17_Inv.good. auto.
   - (* XDict *)
-    apply (Vpost_of_good ca cd pf ls cs); [reflexivity|]. rewrite sok_v_dict in Hs.
-    eapply (good_bind ca cd pf ls cs (Forall (fun p : str * value => vok (snd p)))).
-    + apply (mapM_good ca cd pf ls cs (fun p : str * value => vok (snd p))); [exact HI|].
+    rewrite sok_v_dict in Hs.
+    eapply (good_bind ca cd pf ls cs defs (Forall (fun p : str * value => vok (snd p)))).
+    + apply (mapM_good ca cd pf ls cs defs (fun p : str * value => vok (snd p))); [exact HI|].
       intros [k v] Hin st0 I0. rewrite forallb_forall in Hs. specialize (Hs _ Hin). cbn beta match in Hs. split_sok Hs.
-      cbn [fst snd]. eapply good_bind; [apply (E_plain ca cd pf ls cs _ _ _ IHE); auto|]. intros kv st' I1 F1 Hk. cbv beta match.
-      eapply good_bind; [apply (E_plain ca cd pf ls cs _ _ _ IHE); auto|]. intros vv st'' I2 F2 Hv. cbv beta match.
+      cbn [fst snd]. eapply good_bind; [apply (E_plain ca cd pf ls cs defs _ _ _ IHE); auto|]. intros kv st' I1 F1 Hk. cbv beta match.
+      eapply good_bind; [apply (E_plain ca cd pf ls cs defs _ _ _ IHE); auto|]. intros vv st'' I2 F2 Hv. cbv beta match.
       destruct kv; try exact I. apply good_ret; auto.
     + intros pairs st1 I1 F1 Hp. cbv beta match.
-      pose proof (alloc_dict_good ca cd pf ls cs (fold_left (fun acc kv => env_set (fst kv) (snd kv) acc) pairs []) st1 I1) as Ha.
+      pose proof (alloc_dict_good ca cd pf ls cs defs (fold_left (fun acc kv => env_set (fst kv) (snd kv) acc) pairs []) st1 I1) as Ha.
       unfold alloc_dict in Ha. destruct Ha as (I2 & F2 & V2). { apply merged_ok; [exact Hp|constructor]. }
       cbn [post]. unfold C17_Inv.good. auto.
-  - (* XParen *) apply (Vpost_of_good ca cd pf ls cs); [reflexivity|]. rewrite sok_v_paren in Hs. apply (E_plain ca cd pf ls cs _ _ _ IHE); auto.
+  - (* XParen *) rewrite sok_v_paren in Hs. apply (E_plain ca cd pf ls cs defs _ _ _ IHE); auto.
   - (* XIdent *)
-    apply (Vpost_of_good ca cd pf ls cs); [reflexivity|].
-    destruct (lookup n st) eqn:El; [|exact I]. apply (good_pure ca cd pf ls cs); auto. eapply lookup_ok; eauto.
+    destruct (lookup n st) eqn:El; [|exact I]. apply (good_pure ca cd pf ls cs defs); auto. eapply lookup_ok; eauto.
   - (* XCall *)
-    apply (Vpost_of_good ca cd pf ls cs); [reflexivity|].
     rewrite sok_v_call in Hs. destruct (lookup n st) eqn:El; [|exact I]. apply IHC; auto. eapply lookup_ok; eauto.
   - (* XMeth *)
-    apply (Vpost_of_good ca cd pf ls cs); [reflexivity|]. rewrite sok_v_meth in Hs. split_sok Hs.
-    eapply good_bind; [apply (V_plain ca cd pf ls cs); auto|]. intros obj st1 I1 F1 Ho. cbv beta match.
+    rewrite sok_v_meth in Hs. split_sok Hs.
+    eapply good_bind; [apply (V_plain ca cd pf ls cs defs); auto|]. intros obj st1 I1 F1 Ho. cbv beta match.
     assert (Hcall : forall table,
       post (good st1 vok)
         (if existsb (str_eqb m) table then
@@ -220,7 +210,7 @@ Proof.
                          | [] => Ok ([], st0)
                          | (_, t, def) :: sr =>
                              match l with
-                             | e :: r => rbind (eval_expr Asp [] f e st0) (fun '(v, st') => rbind (validate t def v) (fun v' =>
+                             | e :: r => rbind (eval_expr Asp defs f e st0) (fun '(v, st') => rbind (validate t def v) (fun v' =>
                                          rbind (go r sr st') (fun '(vs, st'') => Ok (v' :: vs, st''))))
                              | [] => match def with
                                      | Some dv => rbind (go [] sr st0) (fun '(vs, st'') => Ok (dv :: vs, st''))
@@ -236,29 +226,29 @@ Proof.
       eapply good_bind.
       - apply meth_args_good; auto. pose proof (method_sig_ok ca cd pf _ _ Esg) as Hsg.
         destruct sg; [constructor|inversion Hsg; auto].
-      - intros vals st2 I2 F2 Hvals. cbv beta match. apply (native_method_good ca cd pf ls cs); auto. }
+      - intros vals st2 I2 F2 Hvals. cbv beta match. apply (native_method_good ca cd pf ls cs defs); auto. }
     destruct obj; try exact I; try apply Hcall.
     + destruct (env_get m (dict_of st1 id)); [exact I|apply Hcall].
     + destruct (env_get m (dict_of st1 id)); [exact I|apply Hcall].
   - (* XIndex *)
-    apply (Vpost_of_good ca cd pf ls cs); [reflexivity|]. rewrite sok_v_index in Hs. split_sok Hs.
-    eapply good_bind; [apply (V_plain ca cd pf ls cs); auto|]. intros obj st1 I1 F1 Ho. cbv beta match.
-    eapply good_bind; [apply (E_plain ca cd pf ls cs _ _ _ IHE); auto|]. intros idx st2 I2 F2 Hi. cbv beta match.
-    apply post_bind_pure. intros v Hv. apply (good_pure ca cd pf ls cs); auto. apply (vindex_ok ca cd pf ls cs st2 obj idx v I2 Ho Hv).
+    rewrite sok_v_index in Hs. split_sok Hs.
+    eapply good_bind; [apply (V_plain ca cd pf ls cs defs); auto|]. intros obj st1 I1 F1 Ho. cbv beta match.
+    eapply good_bind; [apply (E_plain ca cd pf ls cs defs _ _ _ IHE); auto|]. intros idx st2 I2 F2 Hi. cbv beta match.
+    apply post_bind_pure. intros v Hv. apply (good_pure ca cd pf ls cs defs); auto. apply (vindex_ok ca cd pf ls cs defs st2 obj idx v I2 Ho Hv).
   - (* XSlice *)
-    apply (Vpost_of_good ca cd pf ls cs); [reflexivity|]. rewrite sok_v_slice in Hs. split_sok Hs.
-    eapply good_bind; [apply (V_plain ca cd pf ls cs); auto|]. intros obj st1 I1 F1 Ho. cbv beta match.
+    rewrite sok_v_slice in Hs. split_sok Hs.
+    eapply good_bind; [apply (V_plain ca cd pf ls cs defs); auto|]. intros obj st1 I1 F1 Ho. cbv beta match.
     assert (Hoe : forall (o : option expr) st0, match o with None => true | Some e => sok_e e end = true -> Inv st0 ->
               post (good st0 (fun _ : option value => True))
-                (match o with None => Ok (None, st0) | Some e => rbind (eval_expr Asp [] f e st0) (fun '(v, st') => Ok (Some v, st')) end)).
+                (match o with None => Ok (None, st0) | Some e => rbind (eval_expr Asp defs f e st0) (fun '(v, st') => Ok (Some v, st')) end)).
     { intros o st0 Ho' I0. destruct o as [e|]; [|apply good_ret; auto].
-      eapply good_bind; [apply (E_plain ca cd pf ls cs _ _ _ IHE); auto|]. intros v st' I' F' Hv. cbv beta match. apply good_ret; auto. }
+      eapply good_bind; [apply (E_plain ca cd pf ls cs defs _ _ _ IHE); auto|]. intros v st' I' F' Hv. cbv beta match. apply good_ret; auto. }
     eapply good_bind; [apply Hoe; auto|]. intros lov st2 I2 F2 _. cbv beta match.
     eapply good_bind; [apply Hoe; auto|]. intros hiv st3 I3 F3 _. cbv beta match.
-    apply (vslice_good ca cd pf ls cs); auto.
+    apply (vslice_good ca cd pf ls cs defs); auto.
   - (* XConst *)
-    rewrite sok_v_const in Hs. split; [|intros E; discriminate E]. split; [exact HI|]. split; [apply frame_refl|].
-    rewrite (i_cs _ _ _ _ _ _ HI). exact Hs.
+    rewrite sok_v_const in Hs. split; [exact HI|]. split; [apply frame_refl|].
+    rewrite (i_cs _ _ _ _ _ _ _ HI). exact Hs.
 Qed.
 
 End Frame1.
